@@ -421,6 +421,24 @@ def r11(ctx):
     c09.r14(ctx)
     c15.r1(ctx)
 
+def r12(ctx):
+    """'...timeout, disconnect, disable or shutdown yields the corresponding error', 'every user request ... completes exactly once
+    within a number of response timeouts': while the channel has no connection (waiting to reconnect, disabled) a submitted request is
+    failed immediately with NoConnection; only inside a running session is it queued. The flag is a literal at every call site."""
+    prog = ctx.prog
+    n = 0
+    for bd in prog.bodies_matching(r"^dnp3::master::task::MasterSession::"):
+        sym = ctx.sym(bd)
+        for c in call_sites(bd, r"MasterSession::process_message$"):
+            n += 1
+            a = sym.call_expr(c.term)[2][1]
+            caller = bd.path.split("MasterSession::")[1].split("::")[0]
+            v = const_value(prog, a)
+            want = 0 if caller == "process_next_message" else 1
+            ctx.check(v == want, "process_message:connected@%s" % caller, "%s calls process_message(%s)" % (caller, expr_str(a)[:30]), bd.where(c.idx), bad_detail="%s calls process_message(is_connected = %s), expected the literal %s: requests submitted in that state are %s" % (caller, expr_str(a)[:40], bool(want), "queued with no session to run them" if not want else "rejected although a session is running"))
+    if n < 4:
+        raise AnchorError("process_message call sites: %d" % n)
+
 RULES = [
     ("C16.R1", "T2", "command success and SELECT->OPERATE only behind a parsed, faithful echo", r1),
     ("C16.R2", "T2", "echo comparison: status SUCCESS, index+value equality, exact object and header counts", r2),
@@ -433,4 +451,5 @@ RULES = [
     ("C16.R9", "T4-namesake", "stop / task error translations build the namesake variant (Disabled -> Disable, Shutdown -> Shutdown)", r9),
     ("C16.R10", "T11/T4", "the IIN2 rejection test sees every error bit (bit positions and getters, shared with C13.R1)", r10),
     ("C16.R11", "T4/T9", "command status codes: unknown octets preserved, equality variant-sensitive (shared with C09.R14); non-READ acceptance tests (shared with C15.R1)", r11),
+    ("C16.R12", "T8-const", "requests submitted while no session is running fail at once (process_message(false)); inside a session they are queued (true)", r12),
 ]
